@@ -266,6 +266,9 @@ def handleSrv (st : St) (kind : String) (a : Args) (obs : String) : IO St := do
     | some h =>
       let m := snapshotC st
       if sameObs m h then return st else report st (kind ++ ":state-after") ("#" ++ hex64 (fnv64 m)) h
+  | "srv.shutdown" =>
+    -- idle or half-sent connections were open on the sync port when the server was stopped
+    if obs == "ok" then return st else report st kind "ok" obs
   | "srv.parcheck" =>
     if obs == "ok" then return st else report st kind "ok" obs
   | "srv.servers" =>
